@@ -559,11 +559,11 @@ Proof.
 Qed.
 
 Lemma ufield_wf_parts : forall u, ufield_wf u = true ->
-  name_ok (uf_name u) = true /\ is_inline_kind u = false
+  name_ok (uf_name u) = true /\ inline_wf u = true
   /\ (uf_optional u && (uf_required u || match uf_kind u with KKey p _ _ => p | _ => false end)) = false.
 Proof.
   intros u H. unfold ufield_wf in H. apply andb_true_iff in H. destruct H as [H H3].
-  apply andb_true_iff in H. destruct H as [H1 H2]. apply negb_true_iff in H2, H3. auto.
+  apply andb_true_iff in H. destruct H as [H1 H2]. apply negb_true_iff in H3. auto.
 Qed.
 
 (* ---- what [in_quantifier] gives ---------------------------------------------------------------------------- *)
@@ -816,7 +816,7 @@ Lemma in_quantifier_keys_nodup : forall e, in_quantifier e = true -> NoDup (map 
 Proof.
   intros e H. destruct (in_quantifier_parts e H) as [_ [_ [_ [_ [Hk _]]]]].
   unfold fields_wf in Hk. apply andb_true_iff in Hk. destruct Hk as [_ Hk].
-  apply nodup_bytes_NoDup in Hk. unfold sp_field_scope in Hk. apply NoDup_app_l in Hk.
+  apply nodup_bytes_NoDup in Hk. apply NoDup_app_l in Hk. unfold sp_field_scope in Hk. apply NoDup_app_l in Hk.
   rewrite <- (map_map uf_name to_snake) in Hk. apply NoDup_map_inv in Hk.
   change (map key_name (e_keys e)) with (map (fun k => uf_name (k_def k)) (e_keys e)).
   rewrite <- (map_map k_def uf_name). exact Hk.
@@ -835,7 +835,10 @@ Lemma reserved_free_parts : forall e, reserved_free e = true ->
                        | _ => true end) (e_schemas e) = true
   /\ bytes_eqb (response_name e) (bs "page") = false
   /\ (match e_query e with Some q => q_events_in_get q | None => false end
-       && bytes_eqb (response_name e) (bs "events")) = false.
+       && bytes_eqb (response_name e) (bs "events")) = false
+  /\ forallb (fun u => match uf_kind u with
+                        | KInlineOneof opts => forallb (fun o => negb (bytes_eqb (to_snake (sf_name o)) (bs "type"))) opts
+                        | _ => true end) (all_ufields e) = true.
 Proof.
   intros e H. unfold reserved_free in H.
   repeat match type of H with
